@@ -80,6 +80,9 @@ func c12Scenario(profile int, cut int) {
 		startup = schedule.NewComposite(schedule.NewOnce(a), schedule.NewConst(0, d), schedule.NewOnce(b))
 	case 3:
 		startup = schedule.NewComposite(schedule.NewConst(0, d), schedule.NewOnce(a+b))
+	case 4:
+		// nested list whose inner list ends with a pause: [[once a, hold d], once b]
+		startup = schedule.NewComposite(schedule.NewComposite(schedule.NewOnce(a), schedule.NewConst(0, d)), schedule.NewOnce(b))
 	default:
 		startup = schedule.NewInstanceStep(a, a+b, 1, d)
 	}
@@ -150,6 +153,7 @@ func HarnessC12CutBySharedProfile() { c12Scenario(1, 2) }
 // the same profiles with "lazy timers": a timer fires only when no goroutine has work left (firing
 // earlier costs scheduling delays), so instances finish their own RPS profile while the startup
 // profile is still waiting for its next token.
+func HarnessC12Nested()           { c12Scenario(4, 0) }
 func HarnessC12CompositeLazy()    { vLazyTimers(); c12Scenario(1, 0) }
 func HarnessC12InstanceStepLazy() { vLazyTimers(); c12Scenario(2, 0) }
 func HarnessC12DelayedStartLazy() { vLazyTimers(); c12Scenario(3, 0) }
